@@ -126,6 +126,7 @@ func c09(tier string) int {
 	// Fault leg: the table must still be the table after a storage failure
 	// (verdicts of fault-free requests judged from what is really stored).
 	c09AfterLarge(run)
+	c09ManySignatures(run)
 	runFaults(run, "C09", tier, false)
 	// Concurrent leg: the same checkpoint and old size submitted twice at once,
 	// with a correct and with a garbage proof / byte-identically: each request
@@ -199,6 +200,59 @@ func c09AfterLarge(run *ev.Run) {
 				}
 			}
 			e.Close()
+		}
+	}
+}
+
+// c09ManySignatures: the refusals for a submitted checkpoint that carries so
+// many foreign signature lines that, once cosigned, it would reach or pass the
+// note format's limit of 100: the rules are decided on the request, whatever
+// signing it would have meant - each of the four refusals after a checkpoint
+// is stored gets its own verdict and the stored checkpoint.
+func c09ManySignatures(run *ev.Run) {
+	u := uni.New(ev.Seed(), 8, []int{0})
+	gen := wh.NewCPGen(u)
+	la := wh.LogCfg{Origin: logA(), Key: u.K1}
+	m, f := u.Main, u.Forks[0]
+	for _, store := range []string{"mem", "sql"} {
+		for _, sgs := range [][]string{{"cosig"}, {"legacy", "cosig"}} {
+			for _, j := range []int{95, 96, 97, 98, 99} {
+				e := wh.NewEnv(u, wh.Config{Store: store, Logs: []wh.LogCfg{la}, Signers: sgs})
+				cp, meta := gen.Get(la, m, 4, "plain")
+				if out := e.Do(wh.Req{LogID: la.ID(), CP: cp, Meta: meta}); out.Class != wh.OK {
+					e.Close()
+					continue
+				}
+				st := wh.MState{Has: true, Size: 4, Root: meta.Root, Branch: m}
+				shape := fmt.Sprintf("junk%d", j)
+				mk := func(b *uni.Branch, old uint64, n int, proof [][]byte, label string) wh.Req {
+					c, mt := gen.Get(la, b, n, shape)
+					return wh.Req{LogID: la.ID(), Old: old, CP: c, Proof: proof, Meta: mt, Label: label + " (" + shape + ")"}
+				}
+				for _, r := range []wh.Req{
+					mk(m, 9, 8, nil, "old size above the checkpoint size"),
+					mk(m, 3, 6, m.Proof(3, 6), "stale old size"),
+					mk(f, 4, 4, nil, "same size, other root"),
+					mk(m, 4, 6, m.Proof(3, 6), "bad proof"),
+				} {
+					exp := wh.Model(&la, st, r)
+					before := string(e.Stored(la.ID()))
+					out := e.Do(r)
+					run.Add("many_signature_refusals", 1)
+					got := "nil"
+					if out.Bytes != nil {
+						got = "other"
+						if string(out.Bytes) == before {
+							got = "stored"
+						}
+					}
+					if out.Class != exp.Class || got != exp.Ret {
+						run.Report(fmt.Sprintf("many-signature-lines verdict expected=%s/%s got=%s/%s", exp.Class, exp.Ret, out.Class, got), fmt.Sprintf("%s store, witness keys %v: request %q answered %s/%s (%v), the rules say %s/%s", store, sgs, r.Label, out.Class, got, out.Err, exp.Class, exp.Ret), map[string]any{"kind": "many-signatures", "store": store, "junk": j})
+						break
+					}
+				}
+				e.Close()
+			}
 		}
 	}
 }
